@@ -43,7 +43,13 @@ Definition chan_seqs (chs : list (N * option (N * N * bool))) : list (N * option
 
 Definition current_seq (sd : syncd) : N := match sd_unused sd with u :: _ => u | [] => sd_seq sd end.
 
-Definition reconstruct (coll doc : N) (sd : syncd) (next : N) (skipped : list N) (seq : N) : list dlv :=
+Definition removal_deleted (cr : N * option (N * N * bool)) : bool :=
+  match snd cr with Some (_, _, d) => d | None => false end.
+
+(* [fixed]: the code as repaired by commit 1bb148f (the reconstructed removal gets the Deleted flag
+   when a removal at that sequence was made by a tombstone); [false] = the code before it, kept for
+   the witness in C01_Refuted.v *)
+Definition reconstruct_gen (fixed : bool) (coll doc : N) (sd : syncd) (next : N) (skipped : list N) (seq : N) : list dlv :=
   let cur := current_seq sd in
   let is_sk := (seq <? cur) && (seq <? next) && memN seq skipped in
   if ((next <=? seq) && (seq <? cur)) || is_sk then
@@ -51,14 +57,19 @@ Definition reconstruct (coll doc : N) (sd : syncd) (next : N) (skipped : list N)
     | [] => [DUnused seq]
     | (c, r) :: rest =>
         let rev := match r with Some (_, rv, _) => rv | None => 0 end in
-        [DEntry coll seq doc rev false is_sk (chan_seqs ((c, r) :: rest))]
+        [DEntry coll seq doc rev (fixed && existsb removal_deleted ((c, r) :: rest)) is_sk (chan_seqs ((c, r) :: rest))]
     end
   else [].
 
-Definition doc_changed (coll doc : N) (sd : syncd) (next : N) (skipped : list N) : list dlv :=
+Definition doc_changed_gen (fixed : bool) (coll doc : N) (sd : syncd) (next : N) (skipped : list N) : list dlv :=
   map DUnused (sd_unused sd)
-  ++ flat_map (reconstruct coll doc sd next skipped) (sd_recent sd)
+  ++ flat_map (reconstruct_gen fixed coll doc sd next skipped) (sd_recent sd)
   ++ [DEntry coll (sd_seq sd) doc (sd_rev sd) (sd_del sd) false (chan_seqs (sd_chans sd))].
+
+Definition code_fixed : bool := true.
+Definition reconstruct := reconstruct_gen code_fixed.
+Definition doc_changed := doc_changed_gen code_fixed.
+Definition doc_changed_old := doc_changed_gen false.
 
 (* what AddToCache adds, and to which (collection, channel) cache: (seq, doc, rev, removal flag, deleted flag) *)
 Definition to_caches (d : dlv) : list (N * N * (N * N * N * bool * bool)) :=
@@ -78,14 +89,14 @@ Definition query_entry (sd : syncd) (c : N) : option (N * N * bool * bool) :=
   end.
 
 (* ---------- the collection is preserved ---------- *)
-Theorem dedup_keeps_collection coll doc sd next skipped x :
-  In x (flat_map to_caches (doc_changed coll doc sd next skipped)) -> fst (fst x) = coll.
+Lemma keeps_collection_gen fixed coll doc sd next skipped x :
+  In x (flat_map to_caches (doc_changed_gen fixed coll doc sd next skipped)) -> fst (fst x) = coll.
 Proof.
-  intros H. apply in_flat_map in H as [d [Hd Hx]]. unfold doc_changed in Hd.
+  intros H. apply in_flat_map in H as [d [Hd Hx]]. unfold doc_changed_gen in Hd.
   apply in_app_or in Hd as [Hd|Hd].
   - apply in_map_iff in Hd as [s [<- _]]. destruct Hx.
   - apply in_app_or in Hd as [Hd|Hd].
-    + apply in_flat_map in Hd as [s [_ Hd]]. unfold reconstruct in Hd.
+    + apply in_flat_map in Hd as [s [_ Hd]]. unfold reconstruct_gen in Hd.
       destruct (((next <=? s) && (s <? current_seq sd)) || ((s <? current_seq sd) && (s <? next) && memN s skipped)); [|destruct Hd].
       destruct (filter (removed_at s) (sd_chans sd)) as [|[c r] rest].
       * destruct Hd as [<-|[]]. destruct Hx.
@@ -93,13 +104,17 @@ Proof.
     + destruct Hd as [<-|[]]. cbn [to_caches] in Hx. apply in_map_iff in Hx as [cr [<- _]]. reflexivity.
 Qed.
 
+Theorem dedup_keeps_collection coll doc sd next skipped x :
+  In x (flat_map to_caches (doc_changed coll doc sd next skipped)) -> fst (fst x) = coll.
+Proof. apply keeps_collection_gen. Qed.
+
 (* ---------- the current revision reaches every channel the document is in ---------- *)
 Theorem dedup_delivers_current coll doc sd next skipped c :
   In (c, None) (sd_chans sd) ->
   In (coll, c, (sd_seq sd, doc, sd_rev sd, false, sd_del sd)) (flat_map to_caches (doc_changed coll doc sd next skipped)).
 Proof.
   intros H. apply in_flat_map. exists (DEntry coll (sd_seq sd) doc (sd_rev sd) (sd_del sd) false (chan_seqs (sd_chans sd))).
-  split; [unfold doc_changed; apply in_or_app; right; apply in_or_app; right; cbn; auto|].
+  split; [unfold doc_changed, doc_changed_gen; apply in_or_app; right; apply in_or_app; right; cbn; auto|].
   cbn [to_caches]. apply in_map_iff. exists (c, None). split; [reflexivity|].
   apply filter_In. split; [|reflexivity]. unfold chan_seqs. apply in_map_iff. exists (c, None). auto.
 Qed.
@@ -108,12 +123,13 @@ Qed.
 (* [s] never arrived on its own: it is listed in recent_sequences and either still expected by the
    cache (next <= s) or already declared skipped.  All removals at one sequence carry the same
    revision (they were made by the same write). *)
-Theorem dedup_delivers_removal coll doc sd next skipped c s rv dl :
+Lemma delivers_removal_gen fixed coll doc sd next skipped c s rv dl :
   In (c, Some (s, rv, dl)) (sd_chans sd) ->
   (forall c' rv' dl', In (c', Some (s, rv', dl')) (sd_chans sd) -> rv' = rv) ->
   In s (sd_recent sd) -> s < current_seq sd ->
   (next <= s \/ In s skipped) ->
-  In (coll, c, (s, doc, rv, true, false)) (flat_map to_caches (doc_changed coll doc sd next skipped)).
+  In (coll, c, (s, doc, rv, true, fixed && existsb removal_deleted (filter (removed_at s) (sd_chans sd))))
+     (flat_map to_caches (doc_changed_gen fixed coll doc sd next skipped)).
 Proof.
   intros Hc Hrev Hs Hcur Hw. apply in_flat_map.
   assert (In (c, Some (s, rv, dl)) (filter (removed_at s) (sd_chans sd))) as Hf.
@@ -124,9 +140,10 @@ Proof.
   unfold removed_at in R0; cbn in R0. destruct r0 as [[[s0 rv0] dl0]|]; [|discriminate]. apply N.eqb_eq in R0. subst s0.
   assert (rv0 = rv) by (eapply Hrev; eauto). subst rv0.
   set (is_sk := (s <? current_seq sd) && (s <? next) && memN s skipped).
-  exists (DEntry coll s doc rv false is_sk (chan_seqs ((c0, Some (s, rv, dl0)) :: rest))). split.
-  - unfold doc_changed. apply in_or_app; right. apply in_or_app; left. apply in_flat_map. exists s. split; auto.
-    unfold reconstruct. fold is_sk.
+  exists (DEntry coll s doc rv (fixed && existsb removal_deleted ((c0, Some (s, rv, dl0)) :: rest)) is_sk
+                 (chan_seqs ((c0, Some (s, rv, dl0)) :: rest))). split.
+  - unfold doc_changed_gen. apply in_or_app; right. apply in_or_app; left. apply in_flat_map. exists s. split; auto.
+    unfold reconstruct_gen. fold is_sk.
     assert (((next <=? s) && (s <? current_seq sd)) || is_sk = true) as ->.
     { unfold is_sk. destruct Hw as [Hw|Hw]; [|apply memN_In in Hw; rewrite Hw]; lia. }
     rewrite Ef. cbn; auto.
@@ -135,44 +152,82 @@ Proof.
     unfold chan_seqs. apply in_map_iff. exists (c, Some (s, rv, dl)). split; auto.
 Qed.
 
+(* the removal reaches the cache with the sequence and revision the channel query returns ... *)
+Theorem dedup_delivers_removal coll doc sd next skipped c s rv dl :
+  In (c, Some (s, rv, dl)) (sd_chans sd) ->
+  (forall c' rv' dl', In (c', Some (s, rv', dl')) (sd_chans sd) -> rv' = rv) ->
+  In s (sd_recent sd) -> s < current_seq sd ->
+  (next <= s \/ In s skipped) ->
+  exists d, In (coll, c, (s, doc, rv, true, d)) (flat_map to_caches (doc_changed coll doc sd next skipped)).
+Proof. intros. eexists. eapply delivers_removal_gen; eauto. Qed.
+
+(* ... and, in the repaired code, IS the entry the channel query returns, Deleted flag included (all
+   removals at one sequence were made by one write: same revision, same deleted bit) *)
+Definition removal_is_query_entry_statement (fixed : bool) : Prop :=
+  forall coll doc sd next skipped c s rv dl,
+    In (c, Some (s, rv, dl)) (sd_chans sd) ->
+    (forall c' rv' dl', In (c', Some (s, rv', dl')) (sd_chans sd) -> rv' = rv /\ dl' = dl) ->
+    In s (sd_recent sd) -> s < current_seq sd -> (next <= s \/ In s skipped) ->
+    In (coll, c, (s, doc, rv, true, dl)) (flat_map to_caches (doc_changed_gen fixed coll doc sd next skipped)).
+
+Theorem dedup_removal_is_query_entry : removal_is_query_entry_statement true.
+Proof.
+  intros coll doc sd next skipped c s rv dl Hc Hsame Hs Hcur Hw.
+  pose proof (delivers_removal_gen true coll doc sd next skipped c s rv dl Hc
+                (fun c' rv' dl' H => proj1 (Hsame c' rv' dl' H)) Hs Hcur Hw) as H.
+  assert (existsb removal_deleted (filter (removed_at s) (sd_chans sd)) = dl) as E.
+  { destruct dl.
+    - apply existsb_exists. exists (c, Some (s, rv, true)). split; [|reflexivity].
+      apply filter_In. split; auto. unfold removed_at; cbn. apply N.eqb_refl.
+    - destruct (existsb removal_deleted (filter (removed_at s) (sd_chans sd))) eqn:Ex; auto.
+      apply existsb_exists in Ex as [[c' r'] [Hin Hd]]. apply filter_In in Hin as [Hin Hr].
+      unfold removed_at in Hr; unfold removal_deleted in Hd; cbn in *.
+      destruct r' as [[[s' rv'] dl']|]; [|discriminate]. apply N.eqb_eq in Hr; subst s' dl'.
+      destruct (Hsame c' rv' true Hin) as [_ E]. discriminate. }
+  cbn [andb] in H. rewrite E in H. exact H.
+Qed.
+
 (* every entry handed to a cache is what the channel query says about the document, or a removal
    the document's channel map records (nothing is invented) *)
 Theorem dedup_sound coll doc sd next skipped coll' c s d rv rm dl :
   In (coll', c, (s, d, rv, rm, dl)) (flat_map to_caches (doc_changed coll doc sd next skipped)) ->
   d = doc /\ ((s = sd_seq sd /\ rv = sd_rev sd /\ dl = sd_del sd /\ exists r, In (c, r) (sd_chans sd)) \/
-              (rm = true /\ dl = false /\ exists rv' dl', In (c, Some (s, rv', dl')) (sd_chans sd))).
+              (rm = true /\ (exists rv' dl', In (c, Some (s, rv', dl')) (sd_chans sd)) /\
+               (dl = true -> exists c' rv', In (c', Some (s, rv', true)) (sd_chans sd)))).
 Proof.
-  intros H. apply in_flat_map in H as [x [Hd Hx]]. unfold doc_changed in Hd.
+  intros H. apply in_flat_map in H as [x [Hd Hx]]. unfold doc_changed, doc_changed_gen in Hd.
   apply in_app_or in Hd as [Hd|Hd]; [apply in_map_iff in Hd as [u [<- _]]; destruct Hx|].
   apply in_app_or in Hd as [Hd|Hd].
-  - apply in_flat_map in Hd as [q [_ Hd]]. unfold reconstruct in Hd.
+  - apply in_flat_map in Hd as [q [_ Hd]]. unfold reconstruct_gen in Hd.
     destruct (((next <=? q) && (q <? current_seq sd)) || ((q <? current_seq sd) && (q <? next) && memN q skipped)); [|destruct Hd].
     destruct (filter (removed_at q) (sd_chans sd)) as [|[c0 r0] rest] eqn:Ef; [destruct Hd as [<-|[]]; destruct Hx|].
     destruct Hd as [<-|[]]. cbn [to_caches] in Hx. apply in_map_iff in Hx as [[c1 r1] [E Hf]].
     inversion E; subst. apply filter_In in Hf as [Hf _]. unfold chan_seqs in Hf. apply in_map_iff in Hf as [[c2 r2] [E2 Hin]].
     cbn in E2. inversion E2; subst. rewrite <- Ef in Hin. apply filter_In in Hin as [Hin Hr].
     unfold removed_at in Hr; cbn in Hr. destruct r2 as [[[s2 rv2] dl2]|]; [|discriminate]. apply N.eqb_eq in Hr; subst.
-    split; auto. right. split; [reflexivity|]. split; [reflexivity|]. eauto.
+    split; auto. right. split; [reflexivity|]. split; [eauto|].
+    intros Hdl. change (existsb removal_deleted ((c0, r0) :: rest) = true) in Hdl. rewrite <- Ef in Hdl. apply existsb_exists in Hdl as [[c' r'] [Hin' Hd']].
+    apply filter_In in Hin' as [Hin' Hr']. unfold removed_at in Hr'; unfold removal_deleted in Hd'; cbn in *.
+    destruct r' as [[[s' rv'] dl']|]; [|discriminate]. apply N.eqb_eq in Hr'; subst. eauto.
   - destruct Hd as [<-|[]]. cbn [to_caches] in Hx. apply in_map_iff in Hx as [[c1 r1] [E Hf]].
     inversion E; subst. apply filter_In in Hf as [Hf _]. unfold chan_seqs in Hf. apply in_map_iff in Hf as [[c2 r2] [E2 Hin]].
     cbn in E2. inversion E2; subst. split; auto. left. repeat split; auto. eauto.
 Qed.
 
-(* ---------- what is FALSE in the unchanged code ---------- *)
-(* "the reconstructed removal IS the entry the channel query returns for the document": not when the
-   deduplicated revision was a deletion -- the query returns the removal with its Deleted flag (rDel),
-   the reconstructed LogEntry never carries it.  A warm cache and a cold one then answer differently. *)
-Definition dedup_removal_is_query_entry_full_statement : Prop :=
-  forall coll doc sd next skipped c s rv dl,
-    query_entry sd c = Some (s, rv, true, dl) ->
-    In s (sd_recent sd) -> s < current_seq sd -> (next <= s \/ In s skipped) ->
-    In (coll, c, (s, doc, rv, true, dl)) (flat_map to_caches (doc_changed coll doc sd next skipped)).
-
-Lemma dedup_removal_is_query_entry_refuted : ~ dedup_removal_is_query_entry_full_statement.
+(* ---------- what was FALSE before commit 1bb148f ---------- *)
+(* the code before the repair never set the Deleted flag on a reconstructed removal: for a
+   deduplicated DELETION the query returned the removal with deleted (rDel), the warm cache without:
+   the answer depended on the cache state. *)
+Lemma dedup_removal_is_query_entry_refuted : ~ removal_is_query_entry_statement false.
 Proof.
   intros H.
   (* doc deleted at #2 (leaving channel 2), resurrected at #3 into channel 3; the mutation #2 was deduplicated *)
-  specialize (H 5 1 (mkSD 3 30 false [1; 2; 3] [] [(2, Some (2, 20, true)); (3, None)]) 2 [] 2 2 20 true
-                eq_refl ltac:(cbn; auto) ltac:(cbn; lia) ltac:(left; lia)).
-  cbn in H. repeat (destruct H as [H|H]; [discriminate|]). exact H.
+  specialize (H 5 1 (mkSD 3 30 false [1; 2; 3] [] [(2, Some (2, 20, true)); (3, None)]) 2 [] 2 2 20 true).
+  cbn in H.
+  assert (forall (c' rv' : N) (dl' : bool),
+            (2, Some (2, 20, true)) = (c', Some (2, rv', dl')) \/ (3, None) = (c', Some (2, rv', dl')) \/ False ->
+            rv' = 20 /\ dl' = true) as Hs.
+  { intros c' rv' dl' [E|[E|[]]]; inversion E; auto. }
+  specialize (H (or_introl eq_refl) Hs ltac:(auto) ltac:(lia) ltac:(left; lia)).
+  repeat (destruct H as [H|H]; [discriminate|]). exact H.
 Qed.
